@@ -124,12 +124,15 @@ void harness(void) {
 		for (size_t i = 0; i < TLEN; i++) in[o++] = (char)IN.txt[i];
 		uint16_t pl = IN.preflen;
 		V_ASSUME(pl <= (AF == 4 ? 32 : 128));
+		/* number of decimal digits of the prefix length is part of the shape (allocation sizes stay concrete) */
+		V_ASSUME(PDIG == 1 ? pl < 10 : (PDIG == 2 ? (pl >= 10 && pl < 100) : pl >= 100));
 		in[o++] = '/';
-		o += ref_u16(pl, in + o);
-		char *inb = (char *)v_buf(in, o);
+		(void)ref_u16(pl, in + o);
+		o = TLEN + 1 + PDIG;
+		char *inb = (char *)v_buf(in, TLEN + 1 + PDIG);
 		struct sockaddr_storage back;
 		uint16_t got = 0xeeee;
-		int r3 = str_net_to_ss(inb, o, &back, &got);
+		int r3 = str_net_to_ss(inb, TLEN + 1 + PDIG, &back, &got);
 		V_ASSERT(r3 == 0, "str_net_to_ss accepts addr/len");
 		V_ASSERT(got == pl, "prefix length parsed");
 		V_ASSERT(0 == memcmp(sa_addr_get(&back), IN.addr, AF == 4 ? 4 : 16), "network address parsed");
